@@ -3,8 +3,13 @@
 ID=$1; BASE=$2; J=${J:-5}
 WT=/tmp/seed/$ID
 OUT=/verif/seeded/_confirm
+if [ -n "$REUSE" ] && [ -d $WT/_build ]; then
+  # reuse the scratch worktree (and its build directory) the sub-agent left behind: sources are reset to the base commit first
+  cd $WT && git checkout -- . && [ "$(git rev-parse --short=8 HEAD)" = "$(git -C /repo rev-parse --short=8 $BASE)" ] || exit 9
+else
 git -C /repo worktree remove --force $WT 2>/dev/null; rm -rf $WT
 git -C /repo worktree add --detach $WT $BASE >/dev/null 2>&1 || exit 9
+fi
 cd $WT
 cmake -G Ninja -B _build -S . -DCMAKE_BUILD_TYPE=RelWithDebInfo -DFETCHCONTENT_SOURCE_DIR_GOOGLETEST=/usr/src/googletest -DFETCHCONTENT_FULLY_DISCONNECTED=ON -DWITH_BACKWARD=OFF > $OUT/${ID}_cfg.log 2>&1
 for V in v1 v2; do
@@ -22,4 +27,4 @@ for V in v1 v2; do
   echo "{\"id\":\"$ID\",\"v\":\"$V\",\"base\":\"$BASE\",\"build_patched\":$b1,\"demo_patched_exit\":$d1,\"ctest_patched_exit\":$c1,\"ctest_summary\":\"$SUMMARY\",\"build_clean\":$b0,\"demo_clean_exit\":$d0}" > $R.json
   cat $R.json
 done
-cd /; git -C /repo worktree remove --force $WT; rm -rf $WT
+cd /; [ -n "$KEEPWT" ] || { git -C /repo worktree remove --force $WT; rm -rf $WT; }
